@@ -147,7 +147,7 @@ theorem inv_d2 {s s' : State} (I : Inv s) (t) (st : step s (.d2 t) = some s') : 
   apply inv_setPc' I
   · by_cases hv : rd s t nd = 0
     · rw [if_pos hv]; exact hp
-    · rw [if_neg hv]; exact ⟨hp.1, hv, rd_node I.m t nd h3 hv⟩
+    · rw [if_neg hv]; exact ⟨hp.1, hv, rd_node I.m t nd h3 hv, rd_pnd I.m t nd hv⟩
   · split <;> simp [pendOld]
   · intro q'; rw [hpc]; simp [inWin]
   · intro q'; rw [hpc]; simp [inS6]
@@ -170,7 +170,7 @@ theorem inv_sync {s s' : State} (I : Inv s) (t) (st : step s (.sync t) = some s'
         exact ⟨this.1, (hp.1 rfl).2.2⟩
       · rw [if_neg haq]
         have h3 := (hd_node I (hp.2 haq).1).1
-        exact ⟨(hp.2 haq).1, hv, rd_node I.m t a h3 hv⟩
+        exact ⟨(hp.2 haq).1, hv, rd_node I.m t a h3 hv, rd_pnd I.m t a hv⟩
     · cases k <;> simp [syncGotPc, pendOld]; by_cases haq : a = q <;> simp [haq, pendOld]
     · intro q'; rw [hpc]; cases k <;> simp [inWin, syncGotPc]
       intro h1 h2; split <;> simp_all [inWin]
